@@ -185,6 +185,38 @@ def file_gate(m, meta):
                 if data == raw and size[0] * size[1] > rpx[0] * rpx[1]:
                     problems.append(("RGB file", size, "render size in pixels", tuple(rpx), "the untouched file was sent although it has to be downscaled"))
                 image.close()
+        # an ANIMATED file is never sent as it is for a still render: the payload is the current frame only (the whole file would
+        # show frame 0, or play)
+        tests.set_cell_size(G.Size(2, 4))
+        for fmt, mode in (("PNG", "RGB"), ("PNG", "RGBA"), ("WEBP", "RGB"), ("GIF", "P")):
+            cols = [(250, 0, 0), (0, 250, 0), (0, 0, 250)]
+            frs = [Image.new("RGB", (8, 8), c).convert(mode) for c in cols]
+            path = os.path.join(d, f"c03_gate_{os.getpid()}_anim_{mode}.{fmt.lower()}")
+            try:
+                frs[0].save(path, fmt, save_all=True, append_images=frs[1:], duration=100, loop=0, **({"lossless": True} if fmt == "WEBP" else {}))
+            except Exception:  # noqa: BLE001  (format support not built into this PIL)
+                continue
+            paths.append(path)
+            for pil_source in (False, True):
+                for alpha in (0.5, None):
+                    image = ITerm2Image(Image.open(path)) if pil_source else ITerm2Image.from_file(path)
+                    if not image.is_animated:
+                        continue
+                    image.read_from_file = True
+                    image.set_size(width=8)
+                    for n in (1, 2, 0):
+                        image.seek(n)
+                        out = image._renderer(image._render_image, alpha, method="whole")
+                        mm = re.search(r"\x1b\]1337;File=([^:]*):([^\x07\x1b]*)", out)
+                        data = base64.b64decode(mm.group(2))
+                        shown = Image.open(io.BytesIO(data))
+                        px = shown.convert("RGB").getpixel((1, 1))
+                        if getattr(shown, "n_frames", 1) != 1 or any(abs(a - b) > 20 for a, b in zip(px, cols[n])):
+                            problems.append((f"animated {fmt} ({mode} frames), {'PIL' if pil_source else 'file'} source, alpha={alpha!r}: still render of frame {n}",
+                                             "frames in the payload", getattr(shown, "n_frames", 1), "pixel", px, "expected about", cols[n]))
+                            break
+                    if not pil_source:
+                        image.close()
     finally:
         ITerm2Image._supported, ITerm2Image._TERM, ITerm2Image._TERM_VERSION = saved
         for p in paths:
@@ -193,3 +225,52 @@ def file_gate(m, meta):
             except OSError:
                 pass
     return {"reproduced": bool(problems), "input": "iterm2 WHOLE renders of RGBA / RGB / LA / P files, read_from_file on, alpha 0.5 / colour / '#' / None", "observed": [repr(p)[:200] for p in problems[:3]]}
+
+
+def chunk_boundaries(m, meta):
+    """the real Transmission.get_chunked() / get_chunks() on payloads of every length around the chunk boundaries (0 .. just over
+    three chunks; uncompressed so that the length is exact): every command carries at most 4096 base64 characters, a multiple of 4
+    unless last, m flags consistent, keys on the first command only, and the reassembled text decodes to the payload"""
+    import base64, re
+    import tests  # noqa: F401
+    from term_image.image.kitty import Transmission, ControlData
+    problems = []
+    cmd = re.compile("\x1b_G([^;\x1b]*)(?:;([^\x1b]*))?\x1b\\\\")
+
+    def check(label, text, payload):
+        cmds = cmd.findall(text)
+        if not cmds:
+            problems.append({"case": label, "observed": "no graphics command", "text": repr(text)[:60]})
+            return
+        if cmd.sub("", text) != "":
+            problems.append({"case": label, "observed": "text outside graphics commands", "text": repr(cmd.sub("", text))[:60]})
+            return
+        errs = []
+        for i, (ctl, pay) in enumerate(cmds):
+            keys = dict(kv.split("=") for kv in ctl.split(",") if "=" in kv)
+            last = i == len(cmds) - 1
+            if len(pay) > 4096:
+                errs.append(f"command {i}: {len(pay)} base64 characters (> 4096)")
+            if len(pay) % 4 and not last:
+                errs.append(f"command {i}: {len(pay)} characters, not a multiple of 4, and not the last")
+            if keys.get("m") != ("0" if last else "1"):
+                errs.append(f"command {i} of {len(cmds)}: m={keys.get('m')}")
+            if (i == 0) != bool(set(keys) - {"m"}):
+                errs.append(f"command {i}: control keys {sorted(set(keys) - {'m'})}")
+        try:
+            if base64.b64decode("".join(p_ for _, p_ in cmds)) != payload:
+                errs.append("reassembled text does not decode to the payload")
+        except Exception as e:  # noqa: BLE001
+            errs.append(f"reassembled text is not base64: {e}")
+        if errs:
+            problems.append({"case": label, "payload bytes": len(payload), "failed": errs[:3]})
+    lengths = sorted(set(list(range(0, 8)) + [k * 3072 + d for k in (1, 2, 3) for d in range(-4, 5)] + [4090, 4095, 4096, 4097, 4100, 5000, 6144 + 1024, 8192, 8193]))
+    for n in lengths:
+        payload = bytes((i * 7 + n) % 256 for i in range(n))
+        for how in ("get_chunked", "get_chunks"):
+            t = Transmission(ControlData(s=1, v=1, c=1, r=1), payload, 0)
+            text = t.get_chunked() if how == "get_chunked" else "".join(t.get_chunks())
+            check(f"Transmission.{how}(), {n} payload bytes", text, payload)
+        if problems:
+            break
+    return {"reproduced": bool(problems), "input": f"payload lengths {lengths[0]}..{lengths[-1]} around the chunk boundaries", "observed": problems[:3]}
